@@ -140,7 +140,7 @@ def placeFormat (img : Image) (w : Int) (format : Nat) : Out Image := do
 
 /-- which behaviour the automatic mask loop has: the pinned source starts `minPoint` at 0 (so no
 candidate is ever strictly better); a repaired source starts from the first candidate's score. -/
-def AUTO_MASK_INIT_ZERO : Bool := true
+def AUTO_MASK_INIT_ZERO : Bool := false
 
 /-- Go: `EncodeToBitmap` -/
 def encodeToBitmap (qr : QRCode) : Out Image := do
